@@ -384,7 +384,7 @@ func (m Message) GetSPP(spp *uint16) (is bool) {
 	}
 
 	if spp != nil {
-		_, *spp = utils.ParsePitchWheelVals(m[2], m[1])
+		_, *spp = utils.ParsePitchWheelVals(m[1], m[2])
 	}
 
 	return true
